@@ -107,6 +107,17 @@ def records(ctx):
                     bx = config.Service.from_offer_entry(sx.create_offer_entry(ttl))
                     recs.append({"op": "convert", "what": "division_of_the_options_between_the_runs",
                                  "same": bool((bx.options_1, bx.options_2) == (seq3[:k1], seq3[k1:]))})
+                import dataclasses
+                for other in ds:
+                    d2 = dataclasses.replace(s, **dict(zip(("service_id", "instance_id", "major_version", "minor_version"), conc(other, c))),
+                                             options_1=opts2, options_2=())
+                    b2 = config.Service.from_offer_entry(d2.create_offer_entry(ttl))
+                    recs.append({"op": "convert", "what": "offer_of_a_derived_description",
+                                 "same": bool((b2.service_id, b2.instance_id, b2.major_version, b2.minor_version, b2.options_1, b2.options_2)
+                                              == conc(other, c) + (opts2, ()))})
+                    break_after = other["sid"] == "c2" and other["iid"] == "ANY"
+                    if break_after:
+                        break
                 f = s.create_find_entry(ttl)
                 same = (f.sd_type, f.service_id, f.instance_id, f.major_version, f.minver_or_counter, f.ttl, f.options_1, f.options_2) == \
                        (T.FindService, s.service_id, s.instance_id, s.major_version, s.minor_version, ttl, (), ())
